@@ -1,9 +1,10 @@
 """C02 Dimensional analysis is sound.  DESIGN.md section 4, C02."""
 import re
 import cg
+import facts
 import hirutil as H
 import k2
-from facts import AnchorLost, ap_str, ap_calls, hir_walk
+from facts import AnchorLost, ap_str, ap_calls, hir_walk, ap_match
 
 CORE = "rink_core"
 DIM = "types::dimensionality::Dimensionality"
@@ -73,7 +74,8 @@ def same_dim_accept(bases_wanted=None):
             return None
         if bases_wanted is not None:
             got = set(b for b in t[1])
-            if got != bases_wanted:
+            if got != bases_wanted and not (len(got) == len(bases_wanted) and all(any(ap_match(g, w) for w in bases_wanted) for g in got)
+                                            and all(any(ap_match(g, w) for g in got) for w in bases_wanted)):
                 return None
         return {"false"} if t[0] == "ne" else {"true"}
     return acc
@@ -87,14 +89,14 @@ def dimless_accept(base=None, also_equal_to_radian=False):
         if not t:
             return None
         if t[0] == "dimless":
-            if base is not None and t[1][0] != base:
+            if base is not None and not ap_match(t[1][0], base):
                 return None
             return {"true"}
         if t[0] in ("ne", "eq"):
             # comparison against Dimensionality::new() (dimensionless) or the radian base unit
             others = [b for b in t[1] if b[0] == "other"]
             owners = [b for b in t[1] if b[0] != "other"]
-            if len(others) == 1 and len(owners) == 1 and (base is None or owners[0] == base):
+            if len(others) == 1 and len(owners) == 1 and (base is None or ap_match(owners[0], base)):
                 o = others[0][1]
                 if o.startswith(DIM + "::new()") or (also_equal_to_radian and o.startswith(DIM + "::base_unit(types::base_unit::BaseUnit::new(") ):
                     return {"false"} if t[0] == "ne" else {"true"}
@@ -221,10 +223,17 @@ def eval_expr_gates(chk, F):
                     continue
                 if ("::" + name + "(") not in ap_str(val):
                     continue
-                u = ap_str(fn.apath(rv["ops"][1]))
+                uap = fn.apath(rv["ops"][1])
+                u = ap_str(uap)
                 detail = u
+                lit_fn, lit_bb = fn, i
+                g = facts.private_helper(F, CORE, uap[0][1]) if uap[0][0] == "call" and not uap[1] else None
+                if g is not None and facts.straight_line(g):
+                    # the unit has been given a name (`fn radian() -> Dimensionality`): what the helper returns, and its literal
+                    u = ap_str(facts.expand_ap(F, CORE, uap))
+                    lit_fn, lit_bb = g, 0
                 if want == "radian":
-                    ok = u.startswith(DIM + "::base_unit(types::base_unit::BaseUnit::new(") and unit_literal(F, fn, i) == "radian"
+                    ok = u.startswith(DIM + "::base_unit(types::base_unit::BaseUnit::new(") and unit_literal(F, lit_fn, lit_bb) == "radian"
                 else:
                     ok = u.startswith(DIM + "::new()")
         chk.decide(ok, "algebra-shape", fk, name + ":result-unit", fn.where(bb),
@@ -420,16 +429,25 @@ def algebra_shape(chk, F):
     # powi multiplies by exp
     fn = F.find(CORE, "types::number::Number::powi")
     ok = False
-    for c in F.closures_of(fn):
+    # in the function itself (a loop over the entries) or in a closure of it (a `map` over them): entry's exponent * the power
+    for c in [fn] + F.closures_of(fn):
+        power = "arg2" if c is fn else "arg1"      # the parameter, or the closure's captured copy of it
         for i, j, st in c.stmts():
             rv = st.get("rv", {})
-            if rv.get("k") == "binop" and rv["op"].startswith("Mul"):
+            if rv.get("k") == "binop" and rv["op"].startswith("Mul") and rv.get("aty", "i64") == "i64":
                 a, b = ap_str(c.apath(rv["a"])), ap_str(c.apath(rv["b"]))
-                ok = ok or (a.endswith(".1") and "arg1" in b)
+                ok = ok or (a.endswith(".1") and power in b)
     chk.decide(ok, "algebra-shape", "rink_core::Number::powi", "multiplies-exponents", fn.where(), "powi multiplies every exponent by the power", "powi does not multiply each exponent by the power")
     # root divides behind the divisibility gate
     fn = F.find(CORE, "types::number::Number::root")
-    ins = k2.call_blocks(fn, DIM + "::insert")
+    # the action is the division of an exponent itself, wherever it is done: in the loop of root or in a closure mapped over the entries
+    root_fn = fn
+    quot = [(c, i) for c in [fn] + F.closures_of(fn) for i, j, st in c.stmts()
+            if st.get("rv", {}).get("k") == "binop" and st["rv"]["op"] == "Div" and st["rv"].get("aty") == "i64"]
+    if len(set(id(c) for c, _ in quot)) != 1:
+        raise AnchorLost("Number::root: the division of the exponents by the degree was not found in root or one closure of it")
+    fn = quot[0][0]
+    ins = sorted(set(i for _, i in quot))
     def divisible(kind, ap, info):
         if kind != "bool":
             return None
@@ -443,11 +461,27 @@ def algebra_shape(chk, F):
         return None
     k2.gate_rule(chk, fn, "algebra-shape", "rink_core::Number::root", "divisibility-gate", ins, divisible,
                  "root stores power / exp only behind `power % exp == 0`", "root stores a quotient exponent without checking divisibility")
-    q = [st for i, j, st in fn.stmts() if st.get("rv", {}).get("k") == "binop" and st["rv"]["op"] == "Div" and st["rv"].get("aty") == "i64"]
+    q = quot
+    fn = root_fn
     chk.decide(len(q) == 1, "algebra-shape", "rink_core::Number::root", "divides-exponents", fn.where(), "root divides every exponent by the degree", "root does not divide each exponent by the degree")
 
 
 # ---------------------------------------------------------------------------------------------
+def tested_nonzero(fn, bb, vap):
+    """Is the block reached only through the `!= 0` edge of a test of this very value?"""
+    for g in fn.guards_of(bb):
+        d = fn.guard_desc(g)
+        if d[0] != "bool":
+            continue
+        r = d[1][0]
+        if r[0] == "binop" and r[1] in ("Ne", "Eq") and not d[1][1]:
+            sides = [r[2], r[3]]
+            if any(x[0] == ("const", 0) for x in sides) and any(x == vap for x in sides):
+                if d[2] is (r[1] == "Ne"):
+                    return True
+    return False
+
+
 def zero_exponent(chk, F):
     """Every exponent value that flows into a Dimensionality map is NonZero (induction over the writers)."""
     G = cg.get(F)
@@ -521,6 +555,8 @@ def zero_exponent(chk, F):
                 continue
             if cls.startswith("arg"):
                 cls = "maybe"
+            if cls == "maybe" and tested_nonzero(fn, bb, vap):
+                cls = "nonzero"
             decide(fn, fn.where(bb), p.split("::")[-1] + ":exponent", cls, "stored exponent is non-zero (%s)" % ap_str(vap)[:80],
                    "an exponent that may be zero is stored into a Dimensionality: %s" % ap_str(vap)[:120])
     # S2: closures whose (key, exponent) tuples are collected into a Dimensionality
@@ -672,6 +708,56 @@ def merge_completeness(chk, F):
     if None in its or len(its) != 2:
         raise AnchorLost("btree_merge: scrutinee is not (a.peek().., b.peek()..)")
     n_arms = 0
+
+    def side_of(e, sides):
+        e2 = e
+        while e2.get("k") in ("AddrOf", "Unary") and ("e" in e2 or "a" in e2):
+            e2 = e2.get("e") or e2.get("a")
+        l = H.local_name(e2)
+        if not l:
+            return None
+        return 0 if l[0] == sides[0][1] else 1 if l[0] == sides[1][1] else None
+
+    def cases(body, sides, guard):
+        """[(label, body, handled sides)] of an arm whose pattern binds both sides: by its guard, by a `match x.cmp(y)` in it, or
+        by an if / else-if chain over `x < y`, `x > y`."""
+        if guard is not None:
+            if guard.get("k") == "Binary" and guard["op"] in ("Lt", "Gt"):
+                lk, rk = side_of(guard["a"], sides), side_of(guard["b"], sides)
+                if lk is None or rk is None or lk == rk:
+                    return None
+                return [(" if " + H.expr_str(guard, 40), body, [lk if guard["op"] == "Lt" else rk])]
+            return None
+        b = body
+        while b.get("k") == "Block" and not b["stmts"] and b.get("expr"):
+            b = b["expr"]
+        if b.get("k") == "Match" and b["scrut"].get("k") == "MethodCall" and b["scrut"]["name"] == "cmp":
+            lk, rk = side_of(b["scrut"]["recv"], sides), side_of(b["scrut"]["args"][0], sides)
+            if lk is None or rk is None or lk == rk:
+                return None
+            out, seen = [], set()
+            for arm in b["arms"]:
+                pt = H.pat_str(arm["pat"])
+                names = [o for o in ("Less", "Greater", "Equal") if "Ordering::" + o in pt]
+                if not names and arm["pat"]["pk"] == "wild":
+                    names = [o for o in ("Less", "Greater", "Equal") if o not in seen]
+                if len(names) != 1 or arm.get("guard"):
+                    return None
+                seen.add(names[0])
+                out.append((" / cmp is " + names[0], arm["body"], {"Less": [lk], "Greater": [rk], "Equal": [0, 1]}[names[0]]))
+            return out if seen == {"Less", "Greater", "Equal"} else None
+        if b.get("k") == "If" and b["cond"].get("k") == "Binary" and b["cond"]["op"] in ("Lt", "Gt") and b.get("else"):
+            first = cases(b["then"], sides, b["cond"])
+            e = b["else"]
+            while e.get("k") == "Block" and not e["stmts"] and e.get("expr"):
+                e = e["expr"]
+            if first and e.get("k") == "If" and e["cond"].get("k") == "Binary" and e["cond"]["op"] in ("Lt", "Gt") and e.get("else"):
+                second = cases(e["then"], sides, e["cond"])
+                if second and sorted(first[0][2] + second[0][2]) == [0, 1]:
+                    return [first[0], second[0], (" / neither smaller", e["else"], [0, 1])]
+            return None
+        return [("", body, [0, 1])]
+
     for a in m["arms"]:
         pat = a["pat"]
         if pat["pk"] != "tuple" or len(pat["subs"]) != 2:
@@ -685,45 +771,40 @@ def merge_completeness(chk, F):
                 sides.append(("some", k, v))
             else:
                 sides.append(("none", None, None))
-        ptxt = H.pat_str(pat) + (" if " + H.expr_str(a["guard"], 40) if a.get("guard") else "")
         if sides[0][0] == "none" and sides[1][0] == "none":
             brk = [x for x in hir_walk(a["body"]) if x.get("k") == "Break"]
             chk.decide(bool(brk), "merge-completeness", fk, "arm:(None, None)", "%s:%d" % (fn.file, a["line"]), "both exhausted: loop ends", "the (None, None) arm does not end the loop")
             continue
-        n_arms += 1
         # which side(s) must be handled
         if sides[0][0] == "some" and sides[1][0] == "some":
-            g = a.get("guard")
-            if g and g.get("k") == "Binary":
-                l, r = H.local_name(g["a"]), H.local_name(g["b"])
-                op = g["op"]
-                lk = 0 if l and l[0] == sides[0][1] else 1
-                smaller = (1 - lk) if op == "Gt" else lk if op == "Lt" else None
-                handle = [smaller]
-            else:
-                handle = [0, 1]
+            cs = cases(a["body"], sides, a.get("guard"))
+            if cs is None:
+                raise AnchorLost("btree_merge: how the arm `%s` orders the two keys is not recognised (a guard `x < y`/`x > y`, a match on x.cmp(y), or an if chain)" % H.pat_str(pat)[:60])
         else:
-            handle = [0] if sides[0][0] == "some" else [1]
-        nexts = sorted((H.local_name(mc["recv"]) or ("?",))[0] for mc in H.method_calls(a["body"], "next"))
-        want_next = sorted(its[s] for s in handle)
-        inserts = H.method_calls(a["body"], "insert")
-        ok_ins = False
-        ins_txt = [H.expr_str(i, 80) for i in inserts]
-        if len(inserts) == 1:
-            kx = H.expr_str(inserts[0]["args"][0], 60)
-            vx = H.expr_str(inserts[0]["args"][1], 60)
-            if len(handle) == 1:
-                s = handle[0]
-                ok_ins = sides[s][1] is not None and sides[s][2] is not None and kx.startswith(sides[s][1] + ".clone") and vx.startswith(sides[s][2] + ".clone")
-            else:
-                # merged value: insert(key.clone(), v) under `if let Some(v) = merge_func(aval, bval)`
-                mf = [c for c in hir_walk(a["body"]) if c.get("k") == "Call" and H.local_name(c["f"]) and H.local_name(c["f"])[0] == "merge_func"]
-                args_ok = bool(mf) and [H.expr_str(x) for x in mf[0]["args"]] == [sides[0][2], sides[1][2]]
-                ok_ins = args_ok and (kx.startswith(sides[0][1] + ".clone") or kx.startswith(sides[1][1] + ".clone"))
-        chk.decide(nexts == want_next, "merge-completeness", fk, "arm:%s:advance" % ptxt[:60], "%s:%d" % (fn.file, a["line"]),
-                   "arm advances exactly the iterator(s) whose entry it handled (%s)" % want_next,
-                   "arm `%s` advances %s but handles %s: an entry is dropped, duplicated or the loop hangs" % (ptxt[:60], nexts, want_next))
-        chk.decide(ok_ins, "merge-completeness", fk, "arm:%s:insert" % ptxt[:60], "%s:%d" % (fn.file, a["line"]),
-                   "arm inserts the key and value of the side it handles", "arm `%s` does not insert the handled side's key/value (inserts: %s)" % (ptxt[:60], ins_txt))
+            cs = [("", a["body"], [0] if sides[0][0] == "some" else [1])]
+        for label, body, handle in cs:
+            n_arms += 1
+            ptxt = H.pat_str(pat) + label
+            nexts = sorted((H.local_name(mc["recv"]) or ("?",))[0] for mc in H.method_calls(body, "next"))
+            want_next = sorted(its[s] for s in handle)
+            inserts = H.method_calls(body, "insert")
+            ok_ins = False
+            ins_txt = [H.expr_str(i, 80) for i in inserts]
+            if len(inserts) == 1:
+                kx = H.expr_str(inserts[0]["args"][0], 60)
+                vx = H.expr_str(inserts[0]["args"][1], 60)
+                if len(handle) == 1:
+                    s = handle[0]
+                    ok_ins = sides[s][1] is not None and sides[s][2] is not None and kx.startswith(sides[s][1] + ".clone") and vx.startswith(sides[s][2] + ".clone")
+                else:
+                    # merged value: insert(key.clone(), v) under `if let Some(v) = merge_func(aval, bval)`
+                    mf = [c for c in hir_walk(body) if c.get("k") == "Call" and H.local_name(c["f"]) and H.local_name(c["f"])[0] == "merge_func"]
+                    args_ok = bool(mf) and [H.expr_str(x) for x in mf[0]["args"]] == [sides[0][2], sides[1][2]]
+                    ok_ins = args_ok and (kx.startswith(sides[0][1] + ".clone") or kx.startswith(sides[1][1] + ".clone"))
+            chk.decide(nexts == want_next, "merge-completeness", fk, "arm:%s:advance" % ptxt[:60], "%s:%d" % (fn.file, a["line"]),
+                       "arm advances exactly the iterator(s) whose entry it handled (%s)" % want_next,
+                       "arm `%s` advances %s but handles %s: an entry is dropped, duplicated or the loop hangs" % (ptxt[:60], nexts, want_next))
+            chk.decide(ok_ins, "merge-completeness", fk, "arm:%s:insert" % ptxt[:60], "%s:%d" % (fn.file, a["line"]),
+                       "arm inserts the key and value of the side it handles", "arm `%s` does not insert the handled side's key/value (inserts: %s)" % (ptxt[:60], ins_txt))
     if n_arms != 5:
         chk.anchor_lost("merge-completeness", fk, "expected 5 non-terminal arms, found %d" % n_arms)
